@@ -107,6 +107,16 @@ def run(ctx, widen=False):
     for _ in range(6000 if thorough else 1200):
         body = "".join(rng.choice([rng.choice(comp), rng.choice(comp) + rng.choice(comp), rng.choice(ADV), " "]) for _ in range(rng.randint(1, 5)))
         dprogs.append("`" + body.replace("`", "") + rng.choice(TAILS) + "`")
+    # attacks on the escaping of string constants: 0..3 backslashes, then a quote character, then a tail that would be Python
+    # if the constant ended there (the `#` swallows what the template puts after the text)
+    for pos in ("`{}`", "`{}", "‛{}", "«{}«", "λ`{}`;", "⟨`{}`⟩", "@f|`{}`;", "[`{}`]", "`a{}b`", "k`{}`"):
+        for nb in range(0, 4):
+            for q in ('"', "'", '"""', "\n\"", "\r\""):
+                for tail in TAILS + [")\nzz9(1)#", "+zz9(1))#", ");zz9(1);(\""]:
+                    body = "\\" * nb + q + tail
+                    if pos.startswith("‛"):
+                        body = ("\\" * (nb % 2) + q)[:2].ljust(2, "a") + tail
+                    dprogs.append(pos.replace("{}", body.replace("`", "")))
     ctx.bump("dictionary-code strings", len(dprogs))
     progs += dprogs
     nr = 20000 if thorough else 2500
